@@ -25,5 +25,6 @@ ConcViolated(e) ==
   { n \in {"C20_NoCrash", "C20_EveryCallReturns"} :
       ~(CASE n = "C20_NoCrash" -> C20_NoCrash(e) [] n = "C20_EveryCallReturns" -> C20_EveryCallReturns(e)) }
 ConcDetail(e) == [ops |-> e.ops, fatal |-> e.fatal, fatalSite |-> e.fatalSite,
-                  panicSites |-> { e.panics[k].site : k \in DOMAIN e.panics }, blocked |-> e.blocked, runBlocked |-> e.runBlocked]
+                  panicSites |-> { e.panics[k].site : k \in DOMAIN e.panics }, blocked |-> e.blocked, runBlocked |-> e.runBlocked,
+                  blockedSites |-> e.blockedSites]
 =============================================================================
